@@ -77,14 +77,14 @@ func hasFail(fs []fail, kind string) bool {
 }
 
 var scripts = []string{"killed-replace", "price-drop-extend", "kill-twice-close", "challenge-cycle", "challenge-cycle", "exhaust-write-pool",
-	"fail-then-replace-alive", "upload-delete-close", "price-drop-all-extend", "duplicate-blobber-alloc", "tiny-validator-reward"}
+	"fail-then-replace-alive", "upload-delete-close", "price-drop-all-extend", "duplicate-blobber-alloc", "tiny-validator-reward", "odd-extend-then-replace"}
 
 // the paths a property depends on most are scripted more often when that property is checked
 var scriptsMore = map[string][]string{
 	"C12": {"fail-then-replace-alive", "fail-then-replace-alive", "price-drop-all-extend", "upload-delete-close", "tiny-validator-reward"},
-	"C14": {"upload-delete-close", "upload-delete-close", "fail-then-replace-alive"},
+	"C14": {"upload-delete-close", "upload-delete-close", "fail-then-replace-alive", "time-unit-change-close", "time-unit-change-close", "time-unit-change-close"},
 	"C09": {"price-drop-all-extend", "price-drop-all-extend", "fail-then-replace-alive", "upload-delete-close", "tiny-validator-reward", "tiny-validator-reward", "tiny-validator-reward"},
-	"C13": {"fail-then-replace-alive", "duplicate-blobber-alloc", "duplicate-blobber-alloc"},
+	"C13": {"fail-then-replace-alive", "duplicate-blobber-alloc", "duplicate-blobber-alloc", "odd-extend-then-replace", "odd-extend-then-replace", "odd-extend-then-replace"},
 	"C24": {"free-out-of-order-replay"},
 }
 
@@ -218,6 +218,12 @@ func main() {
 			}
 			if h.Ent {
 				g.script = "enterprise-close"
+			}
+			if g.script == "odd-extend-then-replace" {
+				// three data shards + parity + a spare blobber
+				for len(h.Blobbers) < 5 {
+					h.Blobbers = append(h.Blobbers, h.Blobbers[hr.Intn(len(h.Blobbers))])
+				}
 			}
 			if g.script == "tiny-validator-reward" {
 				// several rewarded validators and a non-zero validator share
